@@ -23,6 +23,8 @@ func Lookup(id string) sim.Property {
 		return C12{}
 	case "C16":
 		return C16{}
+	case "C17":
+		return C17{}
 	case "C08":
 		return C08{}
 	}
